@@ -40,7 +40,8 @@ def run(run):
     for r, n in (("C20.R1", 3), ("C20.R2", 3), ("C20.R3", 4), ("C20.R4", 4)):
         run.floor(r, n)
     project = run.project
-    ev = sym.make_evaluator(project, COLL, [], inline_local=True)
+    ev = sym.make_evaluator(project, COLL, [], inline_local=True, no_inline=("_scan_hdus", "_load", "descriptions", "images", "export_simple"))
+    ev.self_class = COLL + ".SimpleFitsCollection"      # private selection helpers of the collection belong to the scan
     _r1_r2(run, ev)
     _r3(run, ev)
     _r4(run)
